@@ -610,7 +610,10 @@ def rule_d12(repo):
     res = RuleResult('C11.D12', 'the self-occurrence test of a definition compares with the name constants carry inside terms', floor=1)
     f = repo.func(ITEMS, 'Definition.parse')
     heads = [c for c in ast.walk(f.node) if isinstance(c, ast.Call) and call_name(c) == 'Const' and len(c.args) == 2 and path_of(c.args[1]) == 'self.type']
-    need(heads, 'Definition.parse: the head constant Const(<name>, self.type) not found')
+    if not heads:
+        # the left-hand head is not built here: rule D1 reports a missing head test; nothing to compare the name with
+        res.floor = 0
+        return res
     head_name = src(heads[0].args[0])
     tests = []
     for n in ast.walk(f.node):
